@@ -337,7 +337,7 @@ def run_pair(case):
     if ok:
         ok, msg, shared, both = pair_oracle(A, tA, B, tB)
     fuel = max(base.model_fuel(A), base.model_fuel(B))
-    coq = cpair(cz(A["size"]), cnat(fuel), base.coq_steps(A, tA), base.coq_steps(B, tB), "([] : list traj)")
+    coq = "(" + cpair(cz(A["size"]), cnat(fuel), base.coq_steps(A, tA), base.coq_steps(B, tB), "([] : list traj)") + " : c04_case)"
     _LITS.append(coq)
     ncols = len(A["steps"][0]["dtypes"]) if A["steps"] else 0
     size = A["size"]
@@ -573,7 +573,7 @@ def run_sim(case):
             keycells[base.py_key(k)] = k
     tr = "(" + clist(cpair(base.coq_key(keycells[k]), cbool(v)) for k, v in same.items() if k in keycells) + " : list traj)"
     fuel = max(base.model_fuel(A), base.model_fuel(B))
-    coq = cpair(cz(A["size"]), cnat(fuel), base.coq_steps(A, tA), base.coq_steps(B, tB), tr)
+    coq = "(" + cpair(cz(A["size"]), cnat(fuel), base.coq_steps(A, tA), base.coq_steps(B, tB), tr) + " : c04_case)"
     _LITS.append(coq)
     ndiff = sum(1 for v in same.values() if not v)
     tags = [f"schema:{case['schema']}", f"size{A['size']}" if A["size"] <= 100 else "size>100", f"shared{min(shared, 30) // 10 * 10}+",
